@@ -26,6 +26,8 @@ Fixpoint d_get (dflt : V) (k : K) (d : pydict K V) : V :=
 Fixpoint d_set (k : K) (v : V) (d : pydict K V) : pydict K V :=
   match d with [] => [(k, v)] | (k', v') :: r => if pyeq k k' then (k', v) :: r else (k', v') :: d_set k v r end.
 End Dict.
+(* a set of strings as a list without repetitions, in order of first addition: s.add(x) *)
+Definition set_add {A} {E : PyEq A} (x : A) (s : list A) : list A := if existsb (pyeq x) s then s else s ++ [x].
 Definition nonempty_list {A} (l : list A) : bool := match l with [] => false | _ => true end.
 
 (* the attributes of an Index object, by the source's names and declared types.  _timestamps: List[float] holds datetime.timestamp() values;
